@@ -22,6 +22,38 @@ def canonical_ops():
     }
 
 
+def same_leaf_case(rng):
+    """Datasets with the SAME link name in different groups, modified through OpenDataset handles in a reopened session:
+    what is aimed at /g2/data must not land on /g1/data (added after seeded change C04-c)."""
+    leaf = rng.choice(["data", "x", "values"])
+    groups = rng.sample(["/g1", "/g2", "/g3", ""], rng.choice([2, 3]))
+    paths = [g + "/" + leaf for g in groups]
+    ops = [{"op": "mkgroup", "path": g} for g in groups if g]
+    for i, p in enumerate(paths):
+        ops.append({"op": "mkds", "path": p, "dtype": "int32", "dims": [4]})
+        ops.append({"op": "write", "path": p, "val": histgen.rand_data(rng, "int32", 4).hex()})
+        if rng.random() < 0.6:
+            ops.append({"op": "setattr", "path": p, "name": hx("tag"), "kind": "i32", "val": bytes([i + 1, 0, 0, 0]).hex()})
+    for _ in range(rng.choice([1, 2])):
+        ops += [{"op": "close"}, {"op": "dump"}, {"op": "reopen"}]
+        order = list(paths)
+        rng.shuffle(order)
+        for p in order:
+            ops.append({"op": "opends", "path": p})
+        for _ in range(rng.choice([3, 6, 10])):
+            p = rng.choice(paths)
+            r = rng.random()
+            if r < 0.5:
+                k, v = histgen.rand_attr_value(rng)
+                ops.append({"op": "setattr", "path": p, "name": hx(rng.choice(["tag", "a", "b"])), "kind": k, "val": v.hex(), "h": 0})
+            elif r < 0.8:
+                ops.append({"op": "write", "path": p, "dtype": "int32", "val": histgen.rand_data(rng, "int32", 4).hex(), "h": 0})
+            else:
+                ops.append({"op": "delattr", "path": p, "name": hx(rng.choice(["tag", "a"])), "h": 0})
+    ops += [{"op": "close"}, {"op": "dump"}]
+    return ops
+
+
 def cases_for(rng, tier):
     cases = []
     can = canonical_ops()
@@ -36,6 +68,8 @@ def cases_for(rng, tier):
     for _ in range(n):
         cases.append({"sb": rng.choice([0, 2, 3]),
                       "ops": histgen.gen_mixed(rng, nops=rng.choice([12, 30, 60, 100]), fail_rate=0.08)})
+    for _ in range(150 if tier == "quick" else 3000):
+        cases.append({"sb": rng.choice([0, 2, 3]), "ops": same_leaf_case(rng)})
     return cases
 
 
@@ -43,4 +77,4 @@ def run(ctx):
     return histcheck.run(ctx, cases_for(ctx.rng, ctx.tier), "C04", tags=None, unit_modules=["c04unit"],
                          rule_extra="C04 cases: orders of {create X, create Y, write X, write Y, attribute on X, attribute on Y, hard link to X, "
                                     "resize X} (700 sampled permutations quick, all 40320 thorough) plus random interleavings over 2-6 live "
-                                    "objects; every untouched object's data, attributes and links must be unchanged after reopen.")
+                                    "objects; datasets with the same link name in different groups modified through OpenDataset handles in reopened sessions; every untouched object's data, attributes and links must be unchanged after reopen.")
